@@ -197,7 +197,20 @@ func buildFixedProtected() {
 	tagOf[lblSigTime] = 1
 	protectedUniverse = []any{int64(1), int64(2), int64(3), lblScheme, lblSigTime}
 	theProtected = gocose.ProtectedHeader{int64(1): alg, int64(2): hCrit.val, int64(3): cty, lblScheme: "notary.x509", lblSigTime: st}
+	// optionally one further header with an arbitrary integer label (it may be 33, the label x5chain has in the unprotected
+	// bucket) whose value looks like a certificate list: a signed header that must stay a mere extended attribute
+	if rt.Choose("further.header", 2) == 1 {
+		lbl := rt.Int64("extra1.label")
+		rt.Assume(rt.And(lbl != 1, rt.And(lbl != 2, lbl != 3)))
+		foreignRaw = rt.Atom("further.header.cert.raw")
+		val := []any{foreignRaw}
+		extraKeys, extraHdr = []any{lbl}, []hdr{{true, true, val}}
+		theProtected[lbl] = val
+		protectedUniverse = append(protectedUniverse, lbl)
+	}
 }
+
+var foreignRaw []byte
 
 func buildMessage(payloadMayBeNil bool) *gocose.Sign1Message {
 	if !focusHeaders {
